@@ -422,16 +422,7 @@ fn query_execute_refusals(cx: &Ctx, thorough: bool) {
         } else {
             cx.r.nontrivial(1);
         }
-        // a 65536-element row serialized in one go
-        cx.r.eval(1);
-        let big: Vec<i32> = vec![0; 65536];
-        let specs: Vec<scylla_cql::frame::response::result::ColumnSpec> = Vec::new();
-        let ctx = scylla_cql::serialize::row::RowSerializationContext::from_specs(&specs);
-        match catch(std::panic::AssertUnwindSafe(|| SerializedValues::from_serializable(&ctx, &big))) {
-            Ok(Err(_)) => cx.r.nontrivial(1),
-            Ok(Ok(sv)) => cx.r.violation("values:65536-not-refused", &format!("a 65536-value row produced a value list announcing {} values", sv.element_count()), json!({"leg":"refuse","what":"values-65536-row"})),
-            Err(pn) => cx.r.violation("values:panic", &format!("65536-value row panicked: {pn}"), json!({"leg":"refuse","what":"values-65536-row"})),
-        }
+        // (rows of 65536+ values through every SerializeRow / closure / batch path: see value_builders)
     }
     // 65536-byte prepared id / result metadata id
     let big_id: Vec<u8> = vec![9; 65536];
@@ -469,6 +460,184 @@ fn query_execute_refusals(cx: &Ctx, thorough: bool) {
         let a = AuthResponse { response: Some(hb) };
         check_refused(cx, "auth_response", "token of 2^31 bytes", &a, false, Comp::None, &json!({"leg":"refuse","what":"auth-2g"}));
     }
+}
+
+// ---------------------------------------------------------------------------------------------
+// value lists at the 16-bit boundary through every public way of building one
+// ---------------------------------------------------------------------------------------------
+
+const BUILDERS: [&str; 14] = [
+    "vec", "slice", "boxed-vec", "ref-vec", "hashmap-string", "hashmap-str", "btreemap-string", "btreemap-str", "closure-cells", "closure-append-rows", "add-value-loop", "closure-null-unset", "batch-adapter", "batch-serialized-values",
+];
+const BOUNDARY_COUNTS: [usize; 8] = [0, 1, 65534, 65535, 65536, 65537, 131071, 131072];
+
+/// `n` int values 0..n-1 bound through `builder`; the outcome must be a refusal, or a value list that is
+/// faithful: announced count == encoded cells == n, and a QUERY / EXECUTE / BATCH frame carrying exactly them.
+fn run_builder_case(cx: &Ctx, builder: &str, n: usize) {
+    use scylla_cql::frame::response::result::{ColumnSpec, TableSpec};
+    use scylla_cql::serialize::raw_batch::RawBatchValuesAdapter;
+    use scylla_cql::serialize::row::RowSerializationContext;
+    use std::collections::BTreeMap;
+    static NAMES: OnceLock<Vec<String>> = OnceLock::new();
+    let names = NAMES.get_or_init(|| (0..131072).map(|i| format!("c{i}")).collect());
+    let r = cx.r;
+    let case = json!({"leg":"values","builder":builder,"n":n});
+    let specs: Vec<ColumnSpec> = (0..n).map(|i| ColumnSpec::borrowed(&names[i], int(), TableSpec::borrowed("ks", "t"))).collect();
+    let ctx = RowSerializationContext::from_specs(&specs);
+    let ints: Vec<i32> = (0..n as i32).collect();
+    let mut want: Vec<Val> = ints.iter().map(|i| Val::Bytes(i.to_be_bytes().to_vec())).collect();
+    r.eval(1);
+    r.counters.add("value_list_builder_cases", 1);
+    // ---- batch builders end in a BATCH frame directly
+    if builder == "batch-adapter" || builder == "batch-serialized-values" {
+        let stmts = vec![BatchStatement::Prepared { id: Cow::Borrowed(&[9u8][..]) }];
+        let want_req = Request::Batch { batch_type: 0, statements: vec![(BatchStmt::Prepared(vec![9]), want.clone())], consistency: 1, flags: 0, serial_consistency: None, timestamp: None };
+        let made = if builder == "batch-adapter" {
+            let vals = vec![ints.clone()];
+            let specs_per_stmt = [specs.as_slice()];
+            let ctxs = specs_per_stmt.iter().map(|s| RowSerializationContext::from_specs(s));
+            let b = Batch { statements: Cow::Owned(stmts), batch_type: BatchType::Logged, consistency: Consistency::One, serial_consistency: None, timestamp: None, values: RawBatchValuesAdapter::new(&vals, ctxs) };
+            catch(std::panic::AssertUnwindSafe(|| SerializedRequest::make(&b, None, false)))
+        } else {
+            // pre-serialized lists: whatever a public constructor hands out is appended verbatim
+            let sv = match catch(std::panic::AssertUnwindSafe(|| SerializedValues::from_serializable(&ctx, &ints))) {
+                Ok(Ok(sv)) => sv,
+                Ok(Err(_)) => {
+                    if n <= 65535 {
+                        r.violation(&format!("values:{builder}:refused-valid"), &format!("{n} values refused"), case);
+                    } else {
+                        r.nontrivial(1);
+                    }
+                    return;
+                }
+                Err(pn) => return r.violation(&format!("values:{builder}:panic"), &pn, case),
+            };
+            let b: Batch<BatchStatement, Vec<SerializedValues>> = Batch { statements: Cow::Owned(stmts), batch_type: BatchType::Logged, consistency: Consistency::One, serial_consistency: None, timestamp: None, values: vec![sv] };
+            catch(std::panic::AssertUnwindSafe(|| SerializedRequest::make(&b, None, false)))
+        };
+        match made {
+            Err(pn) => r.violation(&format!("values:{builder}:panic"), &pn, case),
+            Ok(Err(e)) => {
+                if n <= 65535 {
+                    r.violation(&format!("values:{builder}:refused-valid"), &format!("{n} values refused: {e}"), case);
+                } else {
+                    r.nontrivial(1);
+                }
+            }
+            Ok(Ok(sr)) => match p::parse_request_frame(sr.get_data(), Comp::None, false) {
+                Ok(f) if f.request == want_req => r.nontrivial(1),
+                Ok(f) => {
+                    let got = match &f.request {
+                        Request::Batch { statements, .. } => statements.first().map(|s| s.1.len()).unwrap_or(0),
+                        _ => 0,
+                    };
+                    r.violation(&format!("values:{builder}:unfaithful-frame"), &format!("{n} values bound, the BATCH frame announces {got} for the statement"), case)
+                }
+                Err(e) => r.violation(&format!("values:{builder}:unfaithful-frame"), &format!("{n} values bound, the BATCH frame does not parse: {e}"), case),
+            },
+        }
+        return;
+    }
+    // ---- row builders: a SerializedValues, then QUERY and EXECUTE frames
+    let built: Result<Result<SerializedValues, String>, String> = catch(std::panic::AssertUnwindSafe(|| -> Result<SerializedValues, String> {
+        let e = |x: scylla_cql::serialize::SerializationError| x.to_string();
+        match builder {
+            "vec" => SerializedValues::from_serializable(&ctx, &ints).map_err(e),
+            "slice" => SerializedValues::from_serializable(&ctx, &ints.as_slice()).map_err(e),
+            "boxed-vec" => SerializedValues::from_serializable(&ctx, &Box::new(ints.clone())).map_err(e),
+            "ref-vec" => SerializedValues::from_serializable(&ctx, &&ints).map_err(e),
+            "hashmap-string" => SerializedValues::from_serializable(&ctx, &(0..n).map(|i| (names[i].clone(), i as i32)).collect::<HashMap<String, i32>>()).map_err(e),
+            "hashmap-str" => SerializedValues::from_serializable(&ctx, &(0..n).map(|i| (names[i].as_str(), i as i32)).collect::<HashMap<&str, i32>>()).map_err(e),
+            "btreemap-string" => SerializedValues::from_serializable(&ctx, &(0..n).map(|i| (names[i].clone(), i as i32)).collect::<BTreeMap<String, i32>>()).map_err(e),
+            "btreemap-str" => SerializedValues::from_serializable(&ctx, &(0..n).map(|i| (names[i].as_str(), i as i32)).collect::<BTreeMap<&str, i32>>()).map_err(e),
+            "closure-cells" => SerializedValues::from_closure(|w| {
+                for i in &ints {
+                    w.make_cell_writer().set_value(&i.to_be_bytes()).unwrap();
+                }
+                Ok(())
+            })
+            .map(|x| x.0)
+            .map_err(e),
+            "closure-append-rows" => {
+                // two pre-built halves appended into one row
+                let h = n / 2;
+                let a = SerializedValues::from_serializable(&RowSerializationContext::from_specs(&specs[..h]), &ints[..h].to_vec()).map_err(e)?;
+                let b = SerializedValues::from_serializable(&RowSerializationContext::from_specs(&specs[h..]), &ints[h..].to_vec()).map_err(e)?;
+                SerializedValues::from_closure(|w| {
+                    w.append_serialize_row(&a);
+                    w.append_serialize_row(&b);
+                    Ok(())
+                })
+                .map(|x| x.0)
+                .map_err(e)
+            }
+            "add-value-loop" => {
+                let mut sv = SerializedValues::new();
+                for i in &ints {
+                    let before = (sv.element_count(), sv.buffer_size());
+                    if let Err(x) = sv.add_value(i, &int()) {
+                        if (sv.element_count(), sv.buffer_size()) != before {
+                            return Err("MODIFIED-ON-REFUSAL".into());
+                        }
+                        return Err(e(x));
+                    }
+                }
+                Ok(sv)
+            }
+            _ => SerializedValues::from_closure(|w| {
+                for i in 0..n {
+                    if i % 2 == 0 {
+                        w.make_cell_writer().set_null();
+                    } else {
+                        w.make_cell_writer().set_unset();
+                    }
+                }
+                Ok(())
+            })
+            .map(|x| x.0)
+            .map_err(e),
+        }
+    }));
+    if builder == "closure-null-unset" {
+        want = (0..n).map(|i| if i % 2 == 0 { Val::Null } else { Val::Unset }).collect();
+    }
+    let sv = match built {
+        Err(pn) => return r.violation(&format!("values:{builder}:panic"), &format!("building {n} values panicked: {pn}"), case),
+        Ok(Err(e)) => {
+            if e == "MODIFIED-ON-REFUSAL" {
+                r.violation(&format!("values:{builder}:modified-on-refusal"), &format!("refusing value {n} changed the list"), case);
+            } else if n <= 65535 {
+                r.violation(&format!("values:{builder}:refused-valid"), &format!("{n} values refused: {e}"), case);
+            } else {
+                r.counters.add("oversize_value_lists_refused", 1);
+                r.nontrivial(1);
+            }
+            return;
+        }
+        Ok(Ok(sv)) => sv,
+    };
+    // accepted: it has to be faithful
+    let cells = sv.iter().count();
+    if sv.element_count() as usize != n || cells != n {
+        // (no return: the frames built from it are judged as well)
+        r.violation(&format!("values:{builder}:unfaithful-list"), &format!("{n} values bound, the list announces {} and holds {cells} cells", sv.element_count()), case.clone());
+    }
+    let params = QueryParameters { consistency: Consistency::One, values: Cow::Borrowed(&sv), ..Default::default() };
+    let want_params = QueryParams { consistency: 1, flags: if n > 0 { 1 } else { 0 }, values: (n > 0).then(|| want.clone()), skip_metadata: false, page_size: None, paging_state: None, serial_consistency: None, timestamp: None };
+    let q = Query { contents: Cow::Borrowed("q"), parameters: params };
+    check_frame(cx, &format!("values:{builder}:query"), &q, p::opcode::QUERY, &Request::Query { text: "q".into(), params: want_params.clone() }, false, if n % 2 == 0 { Comp::None } else { Comp::Lz4 }, 1, false, &case);
+    let ex = ExecuteV2 { id: CowBytes::Borrowed(&[1, 2]), result_metadata_id: None, parameters: QueryParameters { consistency: Consistency::One, values: Cow::Borrowed(&sv), ..Default::default() } };
+    check_frame(cx, &format!("values:{builder}:execute"), &ex, p::opcode::EXECUTE, &Request::Execute { id: vec![1, 2], result_metadata_id: None, params: want_params }, false, Comp::None, 2, false, &case);
+}
+
+fn value_builders(cx: &Ctx, jobs: usize) {
+    let mut work: Vec<(&'static str, usize)> = Vec::new();
+    for n in BOUNDARY_COUNTS {
+        for b in BUILDERS {
+            work.push((b, n));
+        }
+    }
+    vcore::par::for_each(jobs, 1, work.into_iter(), |(b, n)| run_builder_case(cx, b, n));
 }
 
 // ---------------------------------------------------------------------------------------------
@@ -913,6 +1082,7 @@ fn self_test() {
 fn replay(cx: &Ctx, case: &Value) {
     match case["leg"].as_str() {
         Some("qe") => run_qcase(cx, QCase::from_json(case)),
+        Some("values") => run_builder_case(cx, BUILDERS.iter().find(|b| Some(**b) == case["builder"].as_str()).copied().unwrap_or("vec"), case["n"].as_u64().unwrap_or(0) as usize),
         Some("batch") => run_bcase(cx, &BCase::from_json(case)),
         Some("batch-adapter") => run_bcase_adapter(cx, &BCase::from_json(case)),
         Some("batch-boundary") => batch_boundaries(cx),
@@ -948,6 +1118,7 @@ fn main() {
         run_bcase_adapter(cxr, &c);
     });
     batch_boundaries(&cx);
+    value_builders(&cx, jobs);
     query_execute_refusals(&cx, thorough);
     small_requests(&cx, None);
 
@@ -962,7 +1133,7 @@ fn main() {
         vcore::machinery_error(&format!("vacuity: expected all 64/64/4 flag bytes to be produced, saw {q_flags}/{e_flags}/{b_flags}"));
     }
     drop(cx);
-    r.set_rule("E-ENUM. QUERY and EXECUTE (ExecuteV2 with/without result-metadata id; deprecated Execute): all 64 subsets of {values, skip_metadata, page size, paging state, serial consistency, timestamp} x value lists {1 and 2 values over value/null/unset, 65535 values, empty+70000-byte value} x all 11 consistencies x texts {0,1,multi-byte,65535,65536 bytes} / ids {0,1,16,65535 bytes} x tracing x {none,LZ4,Snappy}; field contents (page size, paging state, serial, timestamp, stream id) rotate through boundary alphabets (thorough: 5 rotations each, all consistencies for the huge shapes; quick: huge shapes at 3 consistencies). BATCH: 3 types x every 0..3-statement mix of prepared/unprepared x {0,1,2 values} per statement x {equal, one fewer, one more value lists -> refused} x 4 optional-field subsets x 11 consistencies (thorough: x tracing x compression; quick: rotating); 65535 statements accepted, 65536 refused; every BATCH shape both with pre-serialized value lists and through RawBatchValuesAdapter (typed BatchValues + serialization contexts). PREPARE, STARTUP (incl. 65535-byte keys, 65535 options; 65536 refused), REGISTER (all subsets, both structs), OPTIONS, AUTH_RESPONSE (null/empty/short/70000 bytes). Thorough adds > 2 GiB strings/bytes (must be errors). Oracle: header (version 4, opcode, stream, flags == options used, length == body size), body parsed by cqlref::proto equals the request in order, compressed body decompresses (cqlref's own LZ4/Snappy decoders) to the uncompressed serialization. distinct_nontrivial = frames with >= 2 optional fields or compression, multi-statement batches, refusals, small requests.");
+    r.set_rule("E-ENUM. QUERY and EXECUTE (ExecuteV2 with/without result-metadata id; deprecated Execute): all 64 subsets of {values, skip_metadata, page size, paging state, serial consistency, timestamp} x value lists {1 and 2 values over value/null/unset, 65535 values, empty+70000-byte value} x all 11 consistencies x texts {0,1,multi-byte,65535,65536 bytes} / ids {0,1,16,65535 bytes} x tracing x {none,LZ4,Snappy}; field contents (page size, paging state, serial, timestamp, stream id) rotate through boundary alphabets (thorough: 5 rotations each, all consistencies for the huge shapes; quick: huge shapes at 3 consistencies). BATCH: 3 types x every 0..3-statement mix of prepared/unprepared x {0,1,2 values} per statement x {equal, one fewer, one more value lists -> refused} x 4 optional-field subsets x 11 consistencies (thorough: x tracing x compression; quick: rotating); 65535 statements accepted, 65536 refused; every BATCH shape both with pre-serialized value lists and through RawBatchValuesAdapter (typed BatchValues + serialization contexts). Value lists of {0,1,65534,65535,65536,65537,131071,131072} values through every public builder (SerializeRow for Vec / slice / Box / & / HashMap and BTreeMap with String and &str keys via from_serializable, from_closure with cell writers and with appended pre-built rows, add_value loop, null/unset cells, BATCH through RawBatchValuesAdapter and through pre-serialized lists): refusal, or announced count == encoded cells == bound values in the QUERY, EXECUTE and BATCH frames. PREPARE, STARTUP (incl. 65535-byte keys, 65535 options; 65536 refused), REGISTER (all subsets, both structs), OPTIONS, AUTH_RESPONSE (null/empty/short/70000 bytes). Thorough adds > 2 GiB strings/bytes (must be errors). Oracle: header (version 4, opcode, stream, flags == options used, length == body size), body parsed by cqlref::proto equals the request in order, compressed body decompresses (cqlref's own LZ4/Snappy decoders) to the uncompressed serialization. distinct_nontrivial = frames with >= 2 optional fields or compression, multi-statement batches, refusals, small requests.");
     r.set_exhaustive(true);
     r.sample(json!({"leg":"qe","kind":0,"subset":63,"vals":7,"cons":6,"text":2,"tracing":true,"comp":1,"meaning":"QUERY with all six optional fields, two values (null, value), LOCAL_QUORUM, LZ4, tracing"}));
     r.sample(json!({"leg":"batch","btype":0,"stmts":[[false,1],[true,2]],"count_mode":1,"meaning":"2 statements, 1 value list: must be refused"}));
